@@ -180,6 +180,10 @@ func c13(args []string) int {
 	// burst is shipped by the checkpoint's own copy, so no top-level sync marks the WAL as "synced since checkpoint"
 	burst := []Layer{
 		{Name: "seeded/min3/burst-in-checkpoint", Cfg: cfgWith(func(c *scn.Config) { c.MinCheckpointPageN = 3 }), Alphabet: strings.Fields("W1 S SW LCB:PASSIVE LCB:PASSIVE:12 LCB:RESTART"), Depth: d(2, 4), Seeds: [][]string{strings.Fields("W3 SW"), strings.Fields("W1 S")}},
+		// a snapshot requested before litestream's first sync has initialised the database (start-up snapshot monitor,
+		// replicate -force-snapshot): it fails with "not ready" and must leave nothing behind that stops checkpoints
+		{Name: "seeded/min3-tr8/snapshot-before-first-sync", Cfg: cfgWith(func(c *scn.Config) { c.MinCheckpointPageN = 3; c.TruncatePageN = 8 }), Alphabet: strings.Fields("FSNAP W3 WN:9 S W1"), Depth: d(3, 4),
+			Seeds: [][]string{strings.Fields("FSNAP"), strings.Fields("W1 FSNAP")}},
 		{Name: "seeded/min5-tr8/burst-in-checkpoint", Cfg: cfgWith(func(c *scn.Config) { c.MinCheckpointPageN = 5; c.TruncatePageN = 8 }), Alphabet: strings.Fields("W1 S SW LCB:PASSIVE LCB:PASSIVE:12"), Depth: d(2, 3), Seeds: [][]string{strings.Fields("W3 SW")}},
 	}
 	// a snapshot (or sync) whose upload fails, then ordinary writes: whatever the failed operation held must have
